@@ -2,7 +2,8 @@
    Statements only; proofs are in Proofs/ResetProofs.v. *)
 From Coq Require Import List NArith ZArith Bool.
 From Abasic Require Import Model.Bytes Model.Num Model.Token Model.Data Model.Lexer Gen.Tables
-     Model.State Model.Eval Model.Interp Proofs.Monad Proofs.Frames Proofs.StoreProofs Proofs.ResetProofs.
+     Model.State Model.Eval Model.Interp Proofs.Monad Proofs.Frames Proofs.StoreProofs Proofs.ResetProofs
+     Proofs.StoreExt Proofs.StoreBehaviour.
 Import ListNotations.
 
 (* [persistent_eq]: same program (both indexes), same generator state, same
@@ -24,6 +25,19 @@ Theorem C10_history : forall fuel ops s1 s2,
   run_ops fuel s1 (HLine (bs "RUN") :: ops) = run_ops fuel s2 (HLine (bs "RUN") :: ops).
 Proof. exact run_clean_slate_history. Qed.
 
+(* "holding the same program" need not mean the same internal store: two
+   interpreters whose programs are equal as MAPS from line numbers to tokens
+   (entered in different orders, edited differently on the way) answer RUN
+   and every later call with the same rows — outcome, state, drained output
+   queue, caret, message, reads (Proofs/StoreExt.v, StoreBehaviour.v) *)
+Theorem C10_history_same_map : forall fuel s t ops,
+  state s = Idle -> state t = Idle -> same_program s t ->
+  rng s = rng t -> enable_warnings s = enable_warnings t -> enable_tracing s = enable_tracing t ->
+  pow_oracle s = pow_oracle t -> outputs s = outputs t ->
+  Forall2 orow_same (run_ops fuel s (HLine (bs "RUN") :: ops)) (run_ops fuel t (HLine (bs "RUN") :: ops))
+  /\ sim (run_state fuel s (HLine (bs "RUN") :: ops)) (run_state fuel t (HLine (bs "RUN") :: ops)).
+Proof. exact run_depends_on_map. Qed.
+
 (* what RUN computes before the first statement is an explicit function of
    the persistent part only *)
 Theorem C10_reset : forall fuel s, state s = Idle ->
@@ -44,4 +58,5 @@ Proof. vm_compute. repeat split; congruence. Qed.
 
 Print Assumptions C10_clean.
 Print Assumptions C10_history.
+Print Assumptions C10_history_same_map.
 Print Assumptions C10_reset.
